@@ -404,6 +404,17 @@ func c06Engine() *Engine {
 	return &Engine{Name: "CRASH", Run: func(seed uint64, tier string, res *Result) {
 		r := simrt.NewRand(seed ^ 0x6006)
 		w := walWorkload(seed, tier, r.Pct(35))
+		// in a quarter of the runs the log ends with a checkpoint (background writer
+		// on, one pause over the 5-minute checkpoint period at the end): damage that
+		// leaves the checkpoint's COMMITCOMPLETE record unreadable - in particular a
+		// cut between its PREPARING and COMMITCOMPLETE records - must not stop replay
+		// from applying the transactions before it
+		ckptAtEnd := r.Pct(25)
+		if ckptAtEnd {
+			w.Node.BackgroundSync = true
+			w.Node.WALRotateInterval = 5
+			w.Ops = append(w.Ops, &WOp{Kind: "sleep", D: 5*time.Minute + 10*time.Second})
+		}
 		res.Runs++
 		lt, _, walPath, model := runWalLifetime(w, res)
 		if lt == nil || walPath == "" {
@@ -429,9 +440,31 @@ func c06Engine() *Engine {
 		at := lt.timeAt(len(lt.log))
 		ds := damages(r, wal, tgs, tier)
 		res.Count("tgs", int64(len(tgs)))
+		// the image drops every primary data write, which contradicts a checkpoint
+		// that is still readable: damages behind the start of the last completed
+		// checkpoint's COMMITCOMPLETE record, and damages other than cuts, are not
+		// evaluated on such a log
+		ckptC := int64(-1)
+		for _, rc := range parseWAL(wal) {
+			if rc.mid == 1 && rc.dest == 1 && rc.stat == 2 {
+				ckptC = rc.start
+			}
+		}
+		if ckptAtEnd && ckptC < 0 {
+			res.Count("no-checkpoint-in-log", 1)
+		}
 		for di, d := range ds {
 			if pastDeadline(res) {
 				break
+			}
+			if ckptC >= 0 && (d.kind != "truncate" || d.first > ckptC) {
+				// (only a cut makes the checkpoint record unreadable for sure: replay
+				// scans on past a damaged record in the middle)
+				res.Count("damage-leaving-the-checkpoint-readable-skipped", 1)
+				continue
+			}
+			if ckptC >= 0 {
+				res.Count("damage-in-checkpointed-log", 1)
 			}
 			img := base.Clone()
 			img.SetFileBytes(walPath, d.bytes)
